@@ -75,35 +75,46 @@ Qed.
 
 (* ------------------------------------------------------------------ the Boolean skeleton *)
 
+Definition term_cov (t : list expr) (e : expr) : bool :=
+  match index_of e t with Some _ => true | None => false end.
+
 (** all terminals the skeleton of [e] refers to are registered in [t] *)
 Fixpoint covered (t : list expr) (e : expr) {struct e} : bool :=
+  let allb := forallb expr_is_bool (children e) in
   match e with
   | BVLiteral _ _ => true
-  | BVNot a _ => covered t a
-  | BVAnd a b _ | BVOr a b _ | BVXor a b _ | BVImplies a b => covered t a && covered t b
-  | _ => match index_of e t with Some _ => true | None => false end
+  | BVNot a _ => if allb then covered t a else term_cov t e
+  | BVAnd a b _ | BVOr a b _ | BVXor a b _ | BVImplies a b =>
+      if allb then covered t a && covered t b else term_cov t e
+  | _ => term_cov t e
   end.
+
+Lemma term_cov_extends t t' e : extends t t' -> term_cov t e = true -> term_cov t' e = true.
+Proof.
+  unfold term_cov. intros Hx H. destruct (index_of e t) as [i |] eqn:E; [| discriminate].
+  now rewrite (index_of_extends _ _ _ _ Hx E).
+Qed.
+
+Lemma term_val_extends t t' v e : extends t t' -> term_cov t e = true -> term_val t' v e = term_val t v e.
+Proof.
+  unfold term_cov, term_val. intros Hx H. destruct (index_of e t) as [i |] eqn:E; [| discriminate].
+  now rewrite (index_of_extends _ _ _ _ Hx E).
+Qed.
 
 Lemma covered_extends t t' e : extends t t' -> covered t e = true -> covered t' e = true.
 Proof.
-  intros Hx. induction e; cbn [covered]; intros H;
+  intros Hx. induction e; cbn [covered]; try (now apply term_cov_extends); try reflexivity;
+    destruct (forallb expr_is_bool (children _)); try (now apply term_cov_extends); intros H;
     try (apply andb_prop in H; destruct H as [H1 H2]; rewrite IHe1, IHe2 by assumption; reflexivity);
-    try (now apply IHe);
-    try reflexivity;
-    try (match type of H with (match index_of ?x t with _ => _ end) = true =>
-           destruct (index_of x t) as [i |] eqn:E; [| discriminate];
-           now rewrite (index_of_extends _ _ _ _ Hx E) end).
+    now apply IHe.
 Qed.
 
 Lemma bsem_extends t t' v e : extends t t' -> covered t e = true -> bsem t' v e = bsem t v e.
 Proof.
-  intros Hx. induction e; cbn [covered bsem]; intros H;
+  intros Hx. induction e; cbn [covered bsem]; try (now apply term_val_extends); try reflexivity;
+    destruct (forallb expr_is_bool (children _)); try (now apply term_val_extends); intros H;
     try (apply andb_prop in H; destruct H as [H1 H2]; rewrite IHe1, IHe2 by assumption; reflexivity);
-    try (now rewrite IHe);
-    try reflexivity;
-    try (match type of H with (match index_of ?x t with _ => _ end) = true =>
-           destruct (index_of x t) as [i |] eqn:E; [| discriminate];
-           now rewrite (index_of_extends _ _ _ _ Hx E) end).
+    now rewrite IHe.
 Qed.
 
 (** what a successful conversion establishes *)
@@ -124,16 +135,17 @@ Ltac inv_ok :=
          | H : Panic = Ok _ |- _ => discriminate
          end.
 
+(** a node that is read as a terminal by [bsem] / [covered] *)
+Definition reads_as_terminal (e : expr) : Prop :=
+  (forall t v, bsem t v e = term_val t v e) /\ (forall t, covered t e = term_cov t e).
+
 Lemma post_terminal t0 t e t' g :
-  extends t0 t -> terminal t e = (t', g) ->
-  (forall v, bsem t' v e = match index_of e t' with Some i => v i | None => false end) ->
-  (covered t' e = match index_of e t' with Some _ => true | None => false end) ->
-  e2g_post t0 e t' g.
+  reads_as_terminal e -> extends t0 t -> terminal t e = (t', g) -> e2g_post t0 e t' g.
 Proof.
-  intros Hx Ht Hb Hc. apply terminal_spec in Ht. destruct Ht as [Hx' (i & Hi & ->)].
+  intros [Hb Hc] Hx Ht. apply terminal_spec in Ht. destruct Ht as [Hx' (i & Hi & ->)].
   split; [eapply extends_trans; eassumption |]. split.
-  - now rewrite Hc, Hi.
-  - intros vv. now rewrite Hb, Hi, eval_var.
+  - rewrite Hc. unfold term_cov. now rewrite Hi.
+  - intros v. rewrite Hb. unfold term_val. now rewrite Hi, eval_var.
 Qed.
 
 Ltac solve_ext :=
@@ -142,51 +154,64 @@ Ltac solve_ext :=
 Lemma surj_pair_eq {A B} (p : A * B) : p = (fst p, snd p).
 Proof. now destruct p. Qed.
 
-Ltac bin_case lem :=
+Lemma cut_other_ok rp t e r : cut_other rp t e = Ok r -> terminal t e = r.
+Proof. unfold cut_other. destruct (r_traversal rp); [now inversion 1 | discriminate]. Qed.
+
+Lemma cut_connective_ok rp t e r : cut_connective rp t e = Ok r -> terminal t e = r.
+Proof. unfold cut_connective. destruct (r_traversal rp && r_closures rp); [now inversion 1 | discriminate]. Qed.
+
+Ltac bin_case lem Hb :=
   match goal with
   | Hx1 : extends ?t (fst ?p), Hc1 : covered (fst ?p) ?a = true,
     Hv1 : forall v, bdd_eval v (snd ?p) = bsem (fst ?p) v ?a,
     Hx2 : extends (fst ?p) (fst ?q), Hc2 : covered (fst ?q) ?b = true,
     Hv2 : forall v, bdd_eval v (snd ?q) = bsem (fst ?q) v ?b |- _ =>
       split; [eapply extends_trans; eassumption |]; split;
-      [ cbn [covered]; rewrite (covered_extends _ _ _ Hx2 Hc1), Hc2; reflexivity
-      | intros vv; cbn [bsem]; rewrite lem, Hv1, Hv2, (bsem_extends _ _ vv _ Hx2 Hc1); reflexivity ]
+      [ cbn [covered]; rewrite Hb, (covered_extends _ _ _ Hx2 Hc1), Hc2; reflexivity
+      | intros vv; cbn [bsem]; rewrite Hb, lem, Hv1, Hv2, (bsem_extends _ _ vv _ Hx2 Hc1); reflexivity ]
   end.
 
-Lemma e2g_sound debug e : forall t t' g,
-  e2g debug t e = Ok (t', g) -> e2g_post t e t' g.
+(** whatever repairs are switched on, in either build: a returned guard is the Boolean
+    skeleton of the expression *)
+Lemma e2g_sound rp debug e : forall t t' g,
+  e2g rp debug t e = Ok (t', g) -> e2g_post t e t' g.
 Proof.
   induction e; intros t t' g H; cbn [e2g] in H;
-    match type of H with (if negb ?c then _ else _) = _ => destruct c; cbn [negb] in H; [| discriminate] end;
+    (* the test that decides between descending and cutting *)
+    try (match type of H with
+         | (if ?c then _ else _) = _ => destruct c eqn:Hb
+         end);
+    (* cut: the node becomes a terminal *)
+    try (match type of H with
+         | cut_other _ _ _ = Ok _ =>
+             apply cut_other_ok in H; eapply post_terminal; [split; intros; reflexivity | apply extends_refl | exact H]
+         | cut_connective _ _ _ = Ok _ =>
+             apply cut_connective_ok in H; eapply post_terminal; [| apply extends_refl | exact H];
+             split; intros; [cbn [bsem] | cbn [covered]]; rewrite Hb; reflexivity
+         end);
     inv_ok;
     repeat match goal with
-           | IH : forall t t' g, e2g ?d t ?x = Ok (t', g) -> _, E : e2g ?d _ ?x = Ok ?p |- _ =>
+           | IH : forall t t' g, e2g ?r ?d t ?x = Ok (t', g) -> _, E : e2g ?r ?d _ ?x = Ok ?p |- _ =>
                rewrite (surj_pair_eq p) in E; apply IH in E; destruct E as (? & ? & ?); clear IH
            end;
-    (* terminals: symbols and the nodes that are not connectives *)
+    (* terminals: symbols and the visited nodes that are not connectives *)
     try (match goal with
-         | H : Ok (terminal ?tt ?x) = Ok _ |- _ =>
-             inversion H as [Ht]; clear H;
-             eapply post_terminal;
-             [ | rewrite <- (surj_pair_eq (terminal tt x)); reflexivity | reflexivity | reflexivity ];
-             solve_ext
          | Ht : terminal ?tt ?x = (_, _) |- _ =>
-             eapply post_terminal; [ | exact Ht | reflexivity | reflexivity ];
-             solve_ext
+             eapply post_terminal; [split; intros; reflexivity | | exact Ht ]; solve_ext
          end).
   (* literal *)
   - split; [apply extends_refl |]. split; [reflexivity | intros vv; reflexivity].
   (* not *)
-  - cbn [fst snd] in *. split; [assumption |]. split; [assumption |].
-    intros vv. cbn [bsem]. rewrite eval_not. now f_equal.
-  - bin_case eval_implies.
-  - bin_case eval_and.
-  - bin_case eval_or.
-  - bin_case eval_xor.
+  - cbn [fst snd] in *. split; [assumption |]. split; [cbn [covered]; now rewrite Hb |].
+    intros vv. cbn [bsem]. rewrite Hb, eval_not. now f_equal.
+  - bin_case eval_implies Hb.
+  - bin_case eval_and Hb.
+  - bin_case eval_or Hb.
+  - bin_case eval_xor Hb.
 Qed.
 
-Lemma expr_to_guard_sound debug t e t' g :
-  expr_to_guard debug t e = Ok (t', g) -> e2g_post t e t' g.
+Lemma expr_to_guard_sound rp debug t e t' g :
+  expr_to_guard rp debug t e = Ok (t', g) -> e2g_post t e t' g.
 Proof.
   unfold expr_to_guard. destruct (debug && negb (expr_is_bool e)); [discriminate |]. apply e2g_sound.
 Qed.
@@ -205,60 +230,62 @@ Qed.
 Lemma tval_index rho t e i : index_of e t = Some i -> tval rho t i = (ebv rho e =? 1).
 Proof. intros H. unfold tval. now rewrite (index_of_nth _ _ _ H). Qed.
 
+Lemma type_is_bool e : type_of e = TBV 1 -> expr_is_bool e = true.
+Proof. unfold expr_is_bool. now intros ->. Qed.
+
 Section SkeletonValue.
   Variable rho : env.
   Hypothesis Hrho : env_wf rho.
+
+  Lemma term_val_ebv t e : term_cov t e = true -> term_val t (tval rho t) e = (ebv rho e =? 1).
+  Proof.
+    unfold term_cov, term_val. destruct (index_of e t) as [i |] eqn:E; [| discriminate].
+    intros _. now apply tval_index.
+  Qed.
+
+  Ltac bin_ebv IHe1 IHe2 Hwa Hwb Hta Htb Hcov unf :=
+    rewrite (type_is_bool _ Hta), (type_is_bool _ Htb) in *; cbn [andb] in *;
+    apply andb_prop in Hcov; destruct Hcov as [Hca Hcb];
+    rewrite (IHe1 Hwa Hta Hca), (IHe2 Hwb Htb Hcb); cbn [ebv]; unfold unf;
+    destruct (bit_cases _ (ebv_bound rho Hrho _ 1 Hwa Hta)) as [-> | ->];
+    destruct (bit_cases _ (ebv_bound rho Hrho _ 1 Hwb Htb)) as [-> | ->]; reflexivity.
 
   Lemma bsem_ebv t e :
     wt e = true -> type_of e = TBV 1 -> covered t e = true ->
     bsem t (tval rho t) e = (ebv rho e =? 1).
   Proof.
-    induction e; intros Hwt Hty Hcov; cbn [bsem];
-      try (cbn [covered] in Hcov;
-           match type of Hcov with (match index_of ?x t with _ => _ end) = true =>
-             destruct (index_of x t) as [i |] eqn:E; [| discriminate];
-             now apply tval_index end).
+    induction e; intros Hwt Hty Hcov; cbn [bsem]; cbn [covered] in Hcov;
+      try (now apply term_val_ebv); cbn [children forallb] in *.
     - (* literal *)
       cbn [type_of] in Hty. inversion Hty; subst. reflexivity.
     - (* not *)
       cbn [type_of] in Hty. inversion Hty; subst.
       apply wt_not in Hwt. destruct Hwt as [Hwa Hta].
-      cbn [covered] in Hcov. rewrite (IHe Hwa Hta Hcov). cbn [ebv]. unfold bv_not.
+      rewrite (type_is_bool _ Hta) in *. cbn [andb] in *.
+      rewrite (IHe Hwa Hta Hcov). cbn [ebv]. unfold bv_not.
       destruct (bit_cases _ (ebv_bound rho Hrho e 1 Hwa Hta)) as [-> | ->]; reflexivity.
     - (* implies *)
       apply wt_implies in Hwt. destruct Hwt as (Hwa & Hwb & Hta & Htb).
-      cbn [covered] in Hcov. apply andb_prop in Hcov. destruct Hcov as [Hca Hcb].
-      rewrite (IHe1 Hwa Hta Hca), (IHe2 Hwb Htb Hcb). cbn [ebv]. unfold bv_implies.
-      destruct (bit_cases _ (ebv_bound rho Hrho e1 1 Hwa Hta)) as [-> | ->];
-        destruct (bit_cases _ (ebv_bound rho Hrho e2 1 Hwb Htb)) as [-> | ->]; reflexivity.
+      bin_ebv IHe1 IHe2 Hwa Hwb Hta Htb Hcov bv_implies.
     - (* and *)
       cbn [type_of] in Hty. inversion Hty; subst.
       apply wt_and in Hwt. destruct Hwt as (Hwa & Hwb & Hta & Htb).
-      cbn [covered] in Hcov. apply andb_prop in Hcov. destruct Hcov as [Hca Hcb].
-      rewrite (IHe1 Hwa Hta Hca), (IHe2 Hwb Htb Hcb). cbn [ebv]. unfold bv_and.
-      destruct (bit_cases _ (ebv_bound rho Hrho e1 1 Hwa Hta)) as [-> | ->];
-        destruct (bit_cases _ (ebv_bound rho Hrho e2 1 Hwb Htb)) as [-> | ->]; reflexivity.
+      bin_ebv IHe1 IHe2 Hwa Hwb Hta Htb Hcov bv_and.
     - (* or *)
       cbn [type_of] in Hty. inversion Hty; subst.
       apply wt_or in Hwt. destruct Hwt as (Hwa & Hwb & Hta & Htb).
-      cbn [covered] in Hcov. apply andb_prop in Hcov. destruct Hcov as [Hca Hcb].
-      rewrite (IHe1 Hwa Hta Hca), (IHe2 Hwb Htb Hcb). cbn [ebv]. unfold bv_or.
-      destruct (bit_cases _ (ebv_bound rho Hrho e1 1 Hwa Hta)) as [-> | ->];
-        destruct (bit_cases _ (ebv_bound rho Hrho e2 1 Hwb Htb)) as [-> | ->]; reflexivity.
+      bin_ebv IHe1 IHe2 Hwa Hwb Hta Htb Hcov bv_or.
     - (* xor *)
       cbn [type_of] in Hty. inversion Hty; subst.
       apply wt_xor in Hwt. destruct Hwt as (Hwa & Hwb & Hta & Htb).
-      cbn [covered] in Hcov. apply andb_prop in Hcov. destruct Hcov as [Hca Hcb].
-      rewrite (IHe1 Hwa Hta Hca), (IHe2 Hwb Htb Hcb). cbn [ebv]. unfold bv_xor.
-      destruct (bit_cases _ (ebv_bound rho Hrho e1 1 Hwa Hta)) as [-> | ->];
-        destruct (bit_cases _ (ebv_bound rho Hrho e2 1 Hwb Htb)) as [-> | ->]; reflexivity.
+      bin_ebv IHe1 IHe2 Hwa Hwb Hta Htb Hcov bv_xor.
   Qed.
 
   (** [guard_equiv]: the guard is true under the valuation induced by [rho] iff the
       expression evaluates to 1 *)
-  Lemma guard_equiv_lemma debug t e t' g :
+  Lemma guard_equiv_lemma rp debug t e t' g :
     wt e = true -> expr_is_bool e = true ->
-    expr_to_guard debug t e = Ok (t', g) ->
+    expr_to_guard rp debug t e = Ok (t', g) ->
     bdd_eval (tval rho t') g = (ebv rho e =? 1).
   Proof.
     intros Hwt Hb H. apply expr_to_guard_sound in H. destruct H as (_ & Hc & Hv).
@@ -289,14 +316,14 @@ Fixpoint guardable (debug : bool) (e : expr) {struct e} : bool :=
       negb debug && guardable debug a && guardable debug b && guardable debug c
   end.
 
-Lemma e2g_total debug e : forall t, guardable debug e = true -> exists t' g, e2g debug t e = Ok (t', g).
+Lemma e2g_total debug e : forall t, guardable debug e = true -> exists t' g, e2g no_repairs debug t e = Ok (t', g).
 Proof.
   induction e; intros t H; cbn [guardable] in H; apply andb_prop in H; destruct H as [Hc H];
-    cbn [e2g]; rewrite Hc; cbn [negb];
+    cbn [e2g]; rewrite ?Hc; cbn [no_repairs r_closures negb andb];
     repeat (apply andb_prop in H; let H' := fresh "Hg" in destruct H as [H H']);
     try (match type of H with negb ?d = true => destruct d; [discriminate |] end);
     repeat match goal with
-           | IH : forall t, guardable ?d ?x = true -> _, Hg : guardable ?d ?x = true |- context [e2g ?d ?tt ?x] =>
+           | IH : forall t, guardable ?d ?x = true -> _, Hg : guardable ?d ?x = true |- context [e2g _ ?d ?tt ?x] =>
                let t1 := fresh "t" in let g1 := fresh "g" in let E := fresh "E" in
                destruct (IH tt Hg) as (t1 & g1 & E); rewrite E; cbn [rbind fst snd]; clear IH
            end;
@@ -304,23 +331,50 @@ Proof.
 Qed.
 
 Lemma guardable_total debug t e :
-  expr_is_bool e = true -> guardable debug e = true -> exists t' g, expr_to_guard debug t e = Ok (t', g).
+  expr_is_bool e = true -> guardable debug e = true -> exists t' g, expr_to_guard no_repairs debug t e = Ok (t', g).
 Proof.
   intros Hb Hg. unfold expr_to_guard. rewrite Hb. rewrite andb_false_r. now apply e2g_total.
 Qed.
 
-Lemma e2g_panics debug e : forall t, guardable debug e = false -> e2g debug t e = Panic.
+Lemma e2g_panics debug e : forall t, guardable debug e = false -> e2g no_repairs debug t e = Panic.
 Proof.
   induction e; intros t H; cbn [guardable] in H; cbn [e2g];
-    destruct (forallb expr_is_bool (children _)) eqn:Hc; cbn [negb andb] in *; try reflexivity; try discriminate;
+    destruct (forallb expr_is_bool (children _)) eqn:Hc;
+    cbn [negb andb no_repairs r_closures r_traversal cut_other cut_connective] in *;
+    try reflexivity; try discriminate;
     repeat match goal with
-           | |- context [e2g ?d ?tt ?x] =>
+           | |- context [e2g ?r ?d ?tt ?x] =>
                let E := fresh "E" in
-               destruct (e2g d tt x) as [[? ?] |] eqn:E; cbn [rbind fst snd]; [| reflexivity]
+               destruct (e2g r d tt x) as [[? ?] |] eqn:E; cbn [rbind fst snd]; [| reflexivity]
            end;
     destruct debug; cbn [negb andb] in *; try reflexivity; try discriminate;
     repeat match goal with
-           | IH : forall t, guardable ?d ?x = false -> e2g ?d t ?x = Panic, E : e2g ?d ?tt ?x = Ok _ |- _ =>
+           | IH : forall t, guardable ?d ?x = false -> e2g _ ?d t ?x = Panic, E : e2g _ ?d ?tt ?x = Ok _ |- _ =>
                destruct (guardable d x) eqn:?; [clear IH | rewrite (IH tt eq_refl) in E; discriminate]
            end; cbn [andb] in *; try discriminate.
+Qed.
+
+(** with the traversal and the closures repaired the conversion is total: every node that
+    is not a connective over boolean operands simply becomes a terminal *)
+Lemma e2g_repaired_total rp debug e :
+  r_traversal rp = true -> r_closures rp = true ->
+  forall t, exists t' g, e2g rp debug t e = Ok (t', g).
+Proof.
+  intros H1 H2.
+  induction e; intros t; cbn [e2g]; unfold cut_other, cut_connective; rewrite ?H1, ?H2;
+    cbn [negb andb]; rewrite ?andb_false_r;
+    try (destruct (forallb expr_is_bool (children _)));
+    repeat match goal with
+           | IH : forall t, exists t' g, e2g ?r ?d t ?x = Ok (t', g) |- context [e2g ?r ?d ?tt ?x] =>
+               let t1 := fresh "t" in let g1 := fresh "g" in let E := fresh "E" in
+               destruct (IH tt) as (t1 & g1 & E); rewrite E; cbn [rbind fst snd]; clear IH
+           end;
+    try (destruct (terminal _ _) as [tt gg]); eauto.
+Qed.
+
+Lemma expr_to_guard_repaired_total rp debug t e :
+  r_traversal rp = true -> r_closures rp = true -> expr_is_bool e = true ->
+  exists t' g, expr_to_guard rp debug t e = Ok (t', g).
+Proof.
+  intros H1 H2 Hb. unfold expr_to_guard. rewrite Hb, andb_false_r. now apply e2g_repaired_total.
 Qed.
